@@ -1,6 +1,8 @@
 import CfdpVerif.Lemmas.InvDestNotComplete
 import CfdpVerif.Props.C09
 import CfdpVerif.Props.C12
+import CfdpVerif.Props.C10
+import CfdpVerif.Lemmas.SafeDestC01
 /-!
 # C01 — a reported successful delivery implies a byte-identical file
 
@@ -83,7 +85,11 @@ theorem C01_verify_sound (s s' : DestSt) (h : checksumVerify s = .ok true s') :
       · exact Or.inr (Or.inl h1)
     exact ⟨hv, rfl, rfl, rfl, rfl, rfl, rfl, rfl, hv⟩
   · cases hc : Fs.calcChecksum s.fs (Checksum.CksType.ofNat s.p.cksType) s.p.fileName s.p.progress 4096 with
-    | error e => msimp [h1, hc] at h
+    | error e =>
+      msimp [h1, hc] at h
+      split at h
+      · cases hd : declareFault ccChecksumFailure s <;> simp [hd] at h
+      · simp at h
     | ok crc =>
       by_cases h2 : crc = s.p.crc32
       · msimp [h1, hc, h2, markComplete, modP] at h
@@ -103,7 +109,24 @@ theorem C01_verify_failure_keeps_incomplete (env : Env) (s s' : DestSt)
   by_cases h1 : (s.p.cksType = 15 || s.p.metadataOnly) = true
   · msimp [h1, markComplete, modP] at h
   · cases hc : Fs.calcChecksum s.fs (Checksum.CksType.ofNat s.p.cksType) s.p.fileName s.p.progress 4096 with
-    | error e => msimp [h1, hc] at h
+    | error e =>
+      msimp [h1, hc] at h
+      split at h
+      · have hd := NotComplete.declareFault_n env ccChecksumFailure s hn
+        cases hdf : declareFault ccChecksumFailure s with
+        | error e t => simp [hdf] at h
+        | ok fh t =>
+          simp [hdf] at h
+          subst h
+          rw [hdf] at hd
+          refine ⟨hd, ?_⟩
+          intro hv
+          simp at h1
+          rcases hv with hv | hv | hv
+          · exact h1.1 hv
+          · simp [h1.2] at hv
+          · rw [hc] at hv; simp at hv
+      · simp at h
     | ok crc =>
       by_cases h2 : crc = s.p.crc32
       · msimp [h1, hc, h2, markComplete, modP] at h
@@ -153,5 +176,77 @@ theorem C01_source_stores_finished_pdu (env : Source.Env) (s : Source.SrcSt) (h 
     Source.handleWaitForFinish env (some (.fin h fp)) s =
       .ok () { s with step := .NOTICE_OF_COMPLETION, p := { s.p with finishedParams := some fp } } := by
   msimp [Source.handleWaitForFinish, Source.transmissionMode, hb, hm, Source.modP]
+
+/-! ### marked complete only while verified — for every history (receiver) -/
+
+section History
+open Dest Dest.Safe Dest.SafeC C10
+
+/-- a new handler satisfies the invariant -/
+theorem C01_dest_invariant_init (faults : List (Nat × Nat)) (hf : FaultsOk faults) :
+    DK ({ faults := faults } : DestSt) := by
+  refine ⟨C10_dest_invariant_init faults hf, ?_⟩
+  simp [K, Kw, dcComplete, dcIncomplete]
+
+/-- every operation of the user, the peer or the filestore preserves the invariant -/
+theorem C01_dest_step (env : Env) (op : DOp) (s : DestSt) (hi : DK s) (ho : op.ok env) : DK (op.run env s).2 := by
+  cases op with
+  | sm pkt =>
+    have := triple_elim _ _ _ _ (SafeC.stateMachine_spec env pkt ho) s hi
+    cases h : stateMachine env pkt s <;> simp [h, DOp.run, stateOf] at this ⊢
+    · exact this
+    · exact this.1
+  | get =>
+    have := triple_elim _ _ _ _ SafeC.getNextPacket_spec s hi
+    cases h : getNextPacket s <;> simp [h, DOp.run, stateOf] at this ⊢
+    · exact this
+    · exact this.1
+  | cancel t =>
+    have := triple_elim _ _ _ _ (SafeC.cancelRequest_spec env t) s hi
+    cases h : cancelRequest env t s <;> simp [h, DOp.run, stateOf] at this ⊢
+    · exact this
+    · exact this.1
+  | reset =>
+    have := triple_elim _ _ _ _ SafeC.reset_spec s hi
+    cases h : reset s <;> simp [h, DOp.run, stateOf] at this ⊢
+    · exact this
+    · exact this.1
+  | setHandler c f =>
+    have h1 := (C10_dest_step env (.setHandler c f) s hi.1 trivial).1
+    refine ⟨h1, ?_⟩
+    simp only [DOp.run]
+    cases hset : setFaultHandler s.faults c f with
+    | none => exact hi.2
+    | some t => exact hi.2
+  | injectReject e =>
+    have h1 := (C10_dest_step env (.injectReject e) s hi.1 ho).1
+    exact ⟨h1, hi.2⟩
+
+/-- **A reported success implies a verified file, for every history.**  Start from a new receiver;
+let the peer, the link, the user and the filestore do anything — any sequence of PDUs of any type
+and content (hence any loss, duplication, reordering, delay or corruption), cancel requests,
+resets, rejected writes, fault table changes.  In every state reached, if the delivery code is
+Data-complete — the value the Transaction-Finished indication and the Finished PDU carry
+(`C15_finished_matches_pdu`, `C12_dest_finished_pdu`) — then the transaction is in a completion step,
+in which no file data is accepted any more, and the destination file, as it is at that moment,
+verifies against the checksum of the EOF PDU over exactly the received extent (or the transfer is
+metadata-only / negotiated the null checksum).  With `C01_verified_is_crc` / C09: the file's
+checksum *is* the sender's checksum of the source file, i.e. the files are identical up to a
+genuine checksum collision. -/
+theorem C01_dest_complete_means_verified_all_histories (env : Env) (s : DestSt) (hi : DK s)
+    (ops : List DOp) (hops : ∀ op ∈ ops, op.ok env) :
+    let s' := runOps env s ops
+    DK s' ∧ (s'.p.fin.deliv = dcComplete → SafeC.Verified s' ∧ SafeC.InDone s'.step) := by
+  have hinv : DK (runOps env s ops) := by
+    unfold runOps
+    induction ops generalizing s with
+    | nil => exact hi
+    | cons op ops ih =>
+      simp only [List.foldl_cons]
+      exact ih _ (C01_dest_step env op s hi (hops op List.mem_cons_self))
+        (fun o ho => hops o (List.mem_cons_of_mem _ ho))
+  exact ⟨hinv, fun hd => ⟨hinv.2.1.2 hd, hinv.2.2 hd⟩⟩
+
+end History
 
 end Cfdp.C01
